@@ -57,3 +57,14 @@ pub fn owned2<A: Codec>(w0: usize, w1: usize, len: usize) -> Seq<A> {
     bv.truncate(len * A::BITS as usize);
     Seq::from(bv)
 }
+
+/// owned sequence holding the `len` symbols of `src` that start at symbol
+/// `off`, with room for `cap` symbols: `with_capacity` + one `append`. This is
+/// the pre-state for operations that WRITE (measured: writes followed by reads
+/// on `from_vec`-built vectors do not finish, this form does).
+#[inline(always)]
+pub fn owned_cap<A: Codec, const N: usize, const W: usize>(src: &SeqArray<A, N, W>, off: usize, len: usize, cap: usize) -> Seq<A> {
+    let mut s: Seq<A> = Seq::with_capacity(cap);
+    s.append(&src[off..off + len]);
+    s
+}
